@@ -137,6 +137,32 @@ impl<const ONE_PAIR: bool> Queryable for VX<ONE_PAIR> {
     fn null() -> Self {
         Self::Null
     }
+    /// the five documented extension functions, written the way the implementation for `Value` writes
+    /// them: membership by the `==` of the data type (here the derived one: an integer is not a float,
+    /// -0.0 is 0.0, arrays and objects structurally)
+    fn extension_custom(name: &str, args: Vec<std::borrow::Cow<Self>>) -> Self {
+        let arr = |v: &Self| match v {
+            Self::Arr(a) => Some(a.clone()),
+            _ => None,
+        };
+        match (name, args.as_slice()) {
+            ("in", [l, r]) => arr(r).map_or(Self::Null, |e| Self::Bool(e.iter().any(|x| x == l.as_ref()))),
+            ("nin", [l, r]) => arr(r).map_or(Self::Null, |e| Self::Bool(!e.iter().any(|x| x == l.as_ref()))),
+            ("none_of", [l, r]) => match (arr(l), arr(r)) {
+                (Some(a), Some(b)) => Self::Bool(a.iter().all(|x| !b.iter().any(|y| x == y))),
+                _ => Self::Null,
+            },
+            ("any_of", [l, r]) => match (arr(l), arr(r)) {
+                (Some(a), Some(b)) => Self::Bool(a.iter().any(|x| b.iter().any(|y| x == y))),
+                _ => Self::Null,
+            },
+            ("subset_of", [l, r]) => match (arr(l), arr(r)) {
+                (Some(a), Some(b)) => Self::Bool(a.iter().all(|x| b.iter().any(|y| x == y))),
+                _ => Self::Null,
+            },
+            _ => Self::Null,
+        }
+    }
 }
 impl<const ONE_PAIR: bool> JsonPath for VX<ONE_PAIR> {}
 
